@@ -1773,6 +1773,36 @@ def run(rep):
     # ---- R11.d -----------------------------------------------------------
     def r11d():
         seen = set()
+        # the inventory names a writer by the module it was frozen in; the writer is the *function*, wherever in the
+        # package its definition now lives: the definition the inventoried name still resolves to (moved into another
+        # module and imported back), else the only function of that qualified name left in the package once the
+        # inventoried module no longer defines it.  A second function of that name, or the same state written by a
+        # function of any other name, matches nothing and is reported.
+        inventory, lives = {}, {}
+        skipped = lambda name: '.contrib' in name or name.endswith('cline') or '_werkzeug_serving' in name
+        for (gm, gq, gg), why in GLOBAL_WRITERS.items():
+            try:
+                home = repo.mod(gm)
+            except AnalysisError:
+                home = None
+            if home is not None and gq in home.functions:
+                inventory[(gm, gq, gg)] = why
+                continue
+            now = None
+            if home is not None:
+                try:
+                    now = home.func(gq)
+                except AnalysisError:
+                    now = None
+            if now is None:
+                cands = [m2.functions[gq] for m2 in repo.all_internal_modules() if not skipped(m2.name) and gq in m2.functions]
+                if len(cands) == 1:
+                    now = cands[0]
+            if now is not None and not now.mod.external:
+                lives[(gm, gq)] = now
+                inventory[(now.mod.name, now.qualname, gg)] = '%s (the writer %s::%s, now defined in %s)' % (why, gm, gq, now.mod.name)
+            else:
+                inventory[(gm, gq, gg)] = why
         for m in repo.all_internal_modules():
             if '.contrib' in m.name or m.name.endswith('cline') or '_werkzeug_serving' in m.name:
                 continue
@@ -1802,7 +1832,7 @@ def run(rep):
                     if r is None or r in locals_ or r in ('self', 'cls'):
                         continue
                     if r in outer_locals and r not in declared:
-                        if (m.name, fi.qualname, r) in GLOBAL_WRITERS:
+                        if (m.name, fi.qualname, r) in inventory:
                             writes.append((r, e.node))
                         continue
                     if r in mod_globals or r in declared:
@@ -1815,15 +1845,15 @@ def run(rep):
                     if k in seen:
                         continue
                     seen.add(k)
-                    ok = k in GLOBAL_WRITERS
+                    ok = k in inventory
                     via = None
                     if not ok:
                         # a private helper reachable only from an inventoried writer of the same object writes on its behalf
-                        for (gm, gq, gg), why in GLOBAL_WRITERS.items():
+                        for (gm, gq, gg), why in inventory.items():
                             if gm == m.name and gg == g and fi.key in hc.closure({'%s::%s' % (gm, gq)}) and \
                                     any(f2.key == '%s::%s' % (gm, gq) for f2 in m.functions.values()):
                                 ok, via = True, '%s (through its helper %s)' % (why, fi.qualname)
-                    rep.check('R11.d', 'global-writer::%s::%s::%s' % k, ok, 'inventoried: ' + (via or GLOBAL_WRITERS.get(k, '')) if ok else
+                    rep.check('R11.d', 'global-writer::%s::%s::%s' % k, ok, 'inventoried: ' + (via or inventory.get(k, '')) if ok else
                               '%s writes module-level state %s, which is not in the inventory: applications in one process would '
                               'share it' % (fi.key, g), m, node)
         for modname, q in sorted(IMPORT_ONLY):
@@ -1836,7 +1866,7 @@ def run(rep):
             ok = bool(sites) and all(fn is None and mm_ is m for mm_, n, fn in sites)
             rep.check('R11.d', '%s::%s called at import only' % (modname, q), ok, '%s runs at import time only' % q if ok else
                       '%s (writes module-level tables) is called from a function: %s' % (q, [(mm_.relpath, n.lineno) for mm_, n, fn in sites if fn]), m)
-        cc = sinter.func('compile_code')
+        cc = lives.get((SINTER, 'compile_code')) or sinter.func('compile_code')
         cfl = Flow(cc)
         st_ = [s for s in stmts_of(cc.node) if isinstance(s, ast.Assign) and norm(s.targets[0]).startswith('linecache.cache[')]
 
@@ -1863,7 +1893,7 @@ def run(rep):
             return False
         ok = len(st_) == 1 and hashed(st_[0].targets[0].slice, st_[0])
         rep.check('R11.d', fkey(cc, 'linecache key'), ok, 'the only process-wide cache entry is keyed by a hash of the generated text' if ok else
-                  'linecache.cache key does not derive from a content hash of the generated code', sinter, cc.node)
+                  'linecache.cache key does not derive from a content hash of the generated code', cc.mod, cc.node)
         # the request-id counter: advanced by _dispatch_wsgi, directly or through private helpers that nothing else
         # refers to (helpers the front-end dissolved into _dispatch_wsgi are left behind unreferenced)
         main = 'clastic.application::Application._dispatch_wsgi'
